@@ -95,7 +95,7 @@ class ExprMixin:
         v = st.lookup(name)
         if v is not None:
             return v
-        if self.spec and name == 'G':
+        if (self.spec or getattr(self, 'in_ghost', False)) and name == 'G':
             return GHOST
         mod = self.cur[1].split('.')[0] if self.cur else None
         for key in ('%s.%s' % (mod, name), name):
@@ -437,6 +437,8 @@ class ExprMixin:
         self.assumptions.append("values of sort %s are totally ordered by < (strict total order axioms)" % sort)
 
     def contains(self, cont, x, st, node):
+        if isinstance(cont, VOpt):
+            cont = cont.inner
         if isinstance(cont, VTup):
             return z3.Or(*[self.eq(x, it, st) for it in cont.items]) if cont.items else z3.BoolVal(False)
         if isinstance(cont, VRef):
@@ -654,6 +656,8 @@ class ExprMixin:
             st.env[target.id] = v
             return
         if isinstance(target, (ast.Tuple, ast.List)):
+            if isinstance(v, VObj) and v.sort in self.unpack_sorts:
+                v = self.unpack_sorts[v.sort](self, st, v)
             if isinstance(v, VTup) and len(v.items) == len(target.elts):
                 for t, it in zip(target.elts, v.items):
                     self.bind_target(t, it, st)
